@@ -130,6 +130,13 @@ func report(prop, tier string, seed int, out string, results []jobResult, loaded
 			engineErrs = appendUniq(engineErrs, msg)
 		}
 	}
+	// the native side must have run: without it neither witnesses (translator validation) nor
+	// models are confirmed, and a pass would rest on the encoder alone
+	for _, n := range replayNotes {
+		if strings.HasPrefix(n, "native replay failed") {
+			engineErrs = appendUniq(engineErrs, firstN(n, 600))
+		}
+	}
 	// classify violations
 	exit := 0
 	var lines []string
